@@ -202,6 +202,7 @@ func (s step) String() string {
 }
 
 type caseSpec struct {
+	magnet  bool          // the torrent is added by info-hash; a "metadata" step completes it
 	slowA   time.Duration // the first tracker of the first tier answers after this long, with a failure
 	proxied bool
 	init    conf
@@ -214,11 +215,12 @@ func genConf(rt *rapid.T) conf {
 
 func genCase(rt *rapid.T) caseSpec {
 	c := caseSpec{proxied: rapid.Bool().Draw(rt, "proxied"), init: genConf(rt)}
+	c.magnet = rapid.IntRange(0, 3).Draw(rt, "magnet") == 0
 	c.slowA = rapid.SampledFrom([]time.Duration{0, 0, 30 * time.Second, 50 * time.Second}).Draw(rt, "slowFailingTracker")
 	n := rapid.IntRange(1, 15).Draw(rt, "nsteps")
 	for i := 0; i < n; i++ {
 		s := step{Kind: rapid.SampledFrom([]string{"setconf", "setconf", "setconf", "announce", "announce", "want", "want", "peer-out", "peer-out", "peer-in", "peer-in", "sleep", "sleep", "sleep", "sleep",
-			"re-add", "swap", "peer-in-swap"}).Draw(rt, "kind"), A: rapid.IntRange(0, 1000).Draw(rt, "a")}
+			"re-add", "swap", "peer-in-swap", "metadata", "metadata"}).Draw(rt, "kind"), A: rapid.IntRange(0, 1000).Draw(rt, "a")}
 		switch s.Kind {
 		case "setconf", "re-add":
 			s.C = genConf(rt)
@@ -271,6 +273,10 @@ func run(c caseSpec) (fail string, labels map[string]bool, hist []string) {
 		trk := [][]tracker.Tracker{{curA,
 			&fakeTracker{url: "http://tracker-a2.example/announce", mu: &mu, log: &anns}}, {&fakeTracker{url: "udp://tracker-b.example:6969", mu: &mu, log: &anns}}}
 		ws := []webseed.Webseed{webseed.New("http://"+lnAddr+"/", true)}
+		if c.magnet {
+			// added by info-hash: the metadata arrives from a peer later on
+			return tor.New(prox, ih, "", nil, 0, trk, ws)
+		}
 		return tor.New(prox, ih, "", info, 0, trk, ws)
 	}
 	h := ref.Benc(0) // placeholder to keep the import used
@@ -306,8 +312,10 @@ func run(c caseSpec) (fail string, labels map[string]bool, hist []string) {
 			return "tor.New: " + err.Error()
 		}
 		nt.Log.SetOutput(nullWriter{})
-		if err := nt.MetadataComplete(); err != nil {
-			return "MetadataComplete: " + err.Error()
+		if !c.magnet {
+			if err := nt.MetadataComplete(); err != nil {
+				return "MetadataComplete: " + err.Error()
+			}
 		}
 		if _, err := tor.AddTorrent(ctx, nt); err != nil {
 			return "AddTorrent: " + err.Error()
@@ -391,6 +399,36 @@ func run(c caseSpec) (fail string, labels map[string]bool, hist []string) {
 		return f, labels, hist
 	}
 	npeer := 0
+	var attached []*sim.Remote // remotes of the current torrent
+	// audit looks at what a peer has been sent since it was last looked at
+	audit := func(r *sim.Remote, what string) string {
+		for _, m := range r.Take() {
+			switch {
+			case m.Kind == ref.KPort:
+				if proxied {
+					return what + ": proxied torrent sent a Port message to a peer" + describe()
+				}
+				if m.Port != portUDP {
+					return fmt.Sprintf("%s: Port message carries %d, configured UDP port is %d", what, m.Port, portUDP) + describe()
+				}
+				labels["port-sent-unproxied"] = true
+			case m.Kind == ref.KExtended && m.X == ref.XHandshake:
+				hs := m.HS
+				if proxied {
+					if hs.V != nil || hs.P != nil || hs.IPv6 != nil || hs.IPv4 != nil {
+						return fmt.Sprintf("%s: proxied torrent's extended handshake reveals v=%v p=%v ipv6=%x", what, deref(hs.V), derefp(hs.P), hs.IPv6) + describe()
+					}
+					labels["ext-handshake-proxied-clean"] = true
+				} else {
+					if (hs.V == nil || hs.P == nil || *hs.P != portTCP) && !labels["metadata-completed-with-peers-connected"] {
+						return fmt.Sprintf("%s: unproxied extended handshake lacks version or carries port %v (configured %d)", what, derefp(hs.P), portTCP) + describe()
+					}
+					labels["ext-handshake-unproxied"] = true
+				}
+			}
+		}
+		return ""
+	}
 	var seeds []*sim.Remote // connected peers that have everything and never unchoke
 	// swap: the torrent is deleted and added again with the other proxy setting
 	swap := func(what string) string {
@@ -399,6 +437,7 @@ func run(c caseSpec) (fail string, labels map[string]bool, hist []string) {
 		proxied = !proxied
 		K = c.init
 		seeds = nil
+		attached = nil
 		delete(labels, "ws-backoff") // a new web-seed object: no failures yet
 		if f := create(); f != "" {
 			return f + describe()
@@ -481,6 +520,37 @@ func run(c caseSpec) (fail string, labels map[string]bool, hist []string) {
 			if f := swap(what); f != "" {
 				return f, labels, hist
 			}
+		case "metadata":
+			// a connected peer delivers the info dictionary of a torrent that was
+			// added by info-hash; everybody connected is then told about it
+			if !c.magnet || t.InfoComplete() || len(attached) == 0 {
+				continue
+			}
+			dr := attached[s.A%len(attached)]
+			if dr.Closed() {
+				continue
+			}
+			total := uint32(len(info))
+			dr.SendExt(map[string]uint8{"ut_metadata": 7}, nil, &total, "")
+			sim.Settle()
+			for b := 0; b*16384 < len(info); b++ {
+				dr.Send(ref.Msg{Kind: ref.KExtended, Sub: 2, X: ref.XMetadata, MetaType: 1, MetaPiece: uint32(b), MetaTotal: &total, Data: info[b*16384 : min((b+1)*16384, len(info))]})
+			}
+			sim.Settle()
+			if t.InfoComplete() {
+				labels["metadata-completed-with-peers-connected"] = true
+				if proxied {
+					labels["metadata-completed-with-peers-connected, proxied"] = true
+				}
+			}
+			for _, ar := range attached {
+				if f := audit(ar, what+" (what connected peers were sent)"); f != "" {
+					return f, labels, hist
+				}
+			}
+			if f := check(take(), what); f != "" {
+				return f, labels, hist
+			}
 		case "announce":
 			tor.Announce(t.Hash, s.A%2 == 0)
 			o := take()
@@ -494,6 +564,9 @@ func run(c caseSpec) (fail string, labels map[string]bool, hist []string) {
 				labels["dht-trigger-under-none"] = true
 			}
 		case "want":
+			if !t.InfoComplete() {
+				continue
+			}
 			// a piece nobody has: only a web seed could supply it
 			t.Request(uint32(s.A%6), 1, true, false)
 			o := take()
@@ -618,31 +691,10 @@ func run(c caseSpec) (fail string, labels map[string]bool, hist []string) {
 			}
 			sim.Settle()
 			// what the peer was told
-			for _, m := range r.Take() {
-				switch {
-				case m.Kind == ref.KPort:
-					if proxied {
-						return what + ": proxied torrent sent a Port message to a peer" + describe(), labels, hist
-					}
-					if m.Port != portUDP {
-						return fmt.Sprintf("%s: Port message carries %d, configured UDP port is %d", what, m.Port, portUDP) + describe(), labels, hist
-					}
-					labels["port-sent-unproxied"] = true
-				case m.Kind == ref.KExtended && m.X == ref.XHandshake:
-					hs := m.HS
-					if proxied {
-						if hs.V != nil || hs.P != nil || hs.IPv6 != nil || hs.IPv4 != nil {
-							return fmt.Sprintf("%s: proxied torrent's extended handshake reveals v=%v p=%v ipv6=%x", what, deref(hs.V), derefp(hs.P), hs.IPv6) + describe(), labels, hist
-						}
-						labels["ext-handshake-proxied-clean"] = true
-					} else {
-						if hs.V == nil || hs.P == nil || *hs.P != portTCP {
-							return fmt.Sprintf("%s: unproxied extended handshake lacks version or carries port %v (configured %d)", what, derefp(hs.P), portTCP) + describe(), labels, hist
-						}
-						labels["ext-handshake-unproxied"] = true
-					}
-				}
+			if f := audit(r, what); f != "" {
+				return f, labels, hist
 			}
+			attached = append(attached, r)
 			if bad := r.Bad(); bad != "" {
 				return what + ": undecodable frame: " + bad + describe(), labels, hist
 			}
